@@ -532,7 +532,9 @@ def _class_case(ctx, prm):
         else:
             fdd.FDD_mpe = spy
             try:
-                setup.mpe("a", sel_freq=sel_list, DF1=DF, DF2=max(DF, 1.0), npmax=4)
+                # the second-stage band DF2 is (much) wider than the band DF1 of the pick: it reaches the other tone, whose
+                # line has the larger ratio when that tone is the stronger one -- the pick must still be the one of sel +- DF1
+                setup.mpe("a", sel_freq=sel_list, DF1=DF, DF2=max(DF, 1.0, 1.2 * abs(tones[1] - tones[0]) + 2 * df), npmax=4)
             except (IndexError, ValueError):
                 pass  # second stage (C07's business); the first stage was recorded
             finally:
